@@ -22,7 +22,7 @@ def run(ctx):
     return "exploration", cov, [
         "only STRUCTURED inputs are explored (one grammar-node / tree-position mutation of a real capture or of a repository JSON spec per input); arbitrary byte strings, arbitrary JSON and coverage-guided fuzzing are not covered by this technique family",
         "'syntactically valid ClientHello' is TLSWire!ValidClientHello on the mutated record (record framing exact, RFC grammar of every known extension, unknown extensions opaque)",
-        "'applied and marshaled' = UClient(HelloCustom, ServerName set).ApplyPreset(spec) then BuildHandshakeState(); errors are allowed, panics are not",
+        "'applied and marshaled' = UClient(HelloCustom).ApplyPreset(spec) then BuildHandshakeState(), with the captured ServerName and again (fresh import each time) with ServerNames 3 bytes shorter .. 3 bytes longer, none (InsecureSkipVerify) and a 194-byte one; errors are allowed, panics are not",
         "JSON null is reached through the wrong-type operator; duplicate object keys through the dup operator; numbers outside int32 are not generated (TLC integers)",
         "TLC and the Go toolchain are trusted",
     ]
